@@ -2,7 +2,13 @@
 
 Monitor: every evaluation of `<problem>.kind` made by this workload is judged at the API boundary against the independent
 syntactic feature extractor vk/ref/kindx.py: every requirement (a feature, or the weakest alternative set of a feature whose
-definition depends on analysis) found at some syntactic position must be met by `kind.features`."""
+definition depends on analysis) found at some syntactic position must be met by `kind.features`.
+
+History cases: `.kind` is a function of the *current* problem, not of earlier evaluations.  A problem is built, `.kind` is
+evaluated and judged, the problem is mutated through the public API (add_object, set_initial_value, add_fluent / add_action /
+add_goal / timed effects / metrics / ... through further plants, add_agent and same-named agent fluents for multi-agent
+problems), and `.kind` is evaluated and judged again after every mutation - each time against the oracle, which recomputes
+from scratch."""
 from vk import env as _env  # noqa: F401  (wires sys.path to /repo)
 from vk.core import rng_for, chunk, h
 from vk.checks import c10_positions as P
@@ -15,7 +21,8 @@ LEVEL_TEXT = (
     "For every generated problem (classical/numeric/temporal Problem, hierarchical, multi-agent, contingent, scheduling; "
     "each named feature planted in each syntactic position), every problem of the C01 grammar and every problem of the "
     "example and up_test_cases corpora, the feature set returned by the real `.kind` property is compared with the features an "
-    "independent walk over the problem's read-only accessors finds; held on the executions observed only."
+    "independent walk over the problem's read-only accessors finds; problems are also re-evaluated after mutations through the "
+    "public API (every evaluation judged against the from-scratch oracle); held on the executions observed only."
 )
 LEVEL_NOTE = (
     "Trusted: CPython, the read-only accessors of the model classes, the public constructors used by the generator, "
@@ -29,8 +36,16 @@ RULE = (
     "position, feature) into an otherwise bare problem of that class built through the public constructors (from the second "
     "round on with 1-3 further random plants of the same class), (b) problems of the C01 grammar with metrics / trajectory "
     "constraints / interpreted functions, (c) the example corpus and up_test_cases. One evaluation = one problem whose `.kind` "
-    "was computed and judged. distinct_nontrivial = distinct (feature, 'class:position') pairs the oracle observed in judged "
-    "problems; the run is inconclusive unless every pair of the table was observed at least twice."
+    "was computed and judged. (d) history cases: a plant problem of each class (or a C01-grammar problem), often with a fluent "
+    "without default whose ground instances are all initialised explicitly, is evaluated, then mutated 1-3 times (add_object "
+    "with / without initial values for the new state variables, set_initial_value, a further plant = add_fluent / add_action / "
+    "add_goal / ..., for multi-agent problems add_agent and same-named fluents of another type in the other agent) and "
+    "re-evaluated after every mutation; every evaluation is judged; a re-evaluation is non-trivial when the oracle demands a "
+    "feature the previous evaluation's kind did not contain (counted per mutation as history_gain:*). Multi-agent plant "
+    "problems declare, in part of the cases, same-named fluents of different type / signature in the two agents and add the "
+    "agents in either order. distinct_nontrivial = distinct (feature, 'class:position') pairs the oracle observed in judged "
+    "problems (plus distinct (mutation, feature, position) gains); the run is inconclusive unless every pair of the table "
+    "was observed at least twice."
 )
 ASSUMPTIONS = [
     "vk/ref/kindx.py implements the feature table of docs/problem_representation.rst for the features named in the statement; accessors of the model classes do not lie",
@@ -39,15 +54,27 @@ ASSUMPTIONS = [
 
 N_TABLE = len(P.TABLE)
 BOUNDS = {
-    "quick": dict(rounds=3, grammar=200, shards=8),
-    "thorough": dict(rounds=24, grammar=4000, shards=16),
+    "quick": dict(rounds=3, grammar=200, history=300, shards=8),
+    "thorough": dict(rounds=24, grammar=4000, history=6000, shards=16),
 }
+HISTORY_SOURCES = ["grammar", "prob", "htn", "cont", "sched", "ma"]
 
 
 def plan(tier, seed):
     b = BOUNDS[tier]
     keys = [f"C10:{seed}:{i}" for i in range(b["rounds"] * N_TABLE)]
     keys += [f"C10g:{seed}:{i}" for i in range(b["grammar"])]
+    hist = [f"C10h:{seed}:{i}" for i in range(b["history"])]
+    # interleave so that every shard gets its share of each family
+    n = max(1, len(keys) // max(1, len(hist)))
+    mixed = []
+    hi = 0
+    for j, k in enumerate(keys):
+        mixed.append(k)
+        if j % n == n - 1 and hi < len(hist):
+            mixed.append(hist[hi])
+            hi += 1
+    keys = mixed + hist[hi:]
     specs = []
     for si, ch in enumerate(chunk(keys, b["shards"])):
         specs.append({"shard": si, "tier": tier, "seed": seed, "cases": ch})
@@ -83,8 +110,25 @@ def mechanism(pos, family):
     return f"missing:{pos}:{family}"
 
 
-def judge(pb, wbase, res, describe):
-    """Evaluate pb.kind and judge it. describe() -> dict with human-readable details for a witness."""
+def _only_from_name_sharing_fluents(pb, alts, pos):
+    """diagnosis only: is the requirement (alts, pos) generated exclusively by agent fluents whose name is also the name of a
+    different fluent of another agent?"""
+    gens = []
+    for ag in pb.agents:
+        for f in ag.fluents:
+            x = kindx._X(pb, "ma")
+            x.fluent(f, "agent-fluent")
+            if any(r[0] == tuple(alts) and r[3] == pos for r in x.reqs):
+                gens.append((ag, f))
+    return bool(gens) and all(
+        any(o is not ag and any(g.name == f.name and g != f for g in o.fluents) for o in pb.agents) for ag, f in gens
+    )
+
+
+def judge(pb, wbase, res, describe, hist=None, prev=None):
+    """Evaluate pb.kind and judge it. describe() -> dict with human-readable details for a witness.
+    hist: name of the mutation applied since the previous evaluation of the same problem (history cases); prev: the feature
+    set that previous evaluation returned."""
     from unified_planning.exceptions import UPException
 
     pc, reqs, notes = kindx.extract(pb)
@@ -113,11 +157,36 @@ def judge(pb, wbase, res, describe):
             seen.add(pair)
             res.nt(pair)
             res.count(f"pair:{label}@{pos}")
+    if hist is not None:
+        res.count("history_evals")
+        res.count("history_mut:" + hist)
+        res.count("history_class:" + pc)
+        gained = False
+        for alts, label, family, pos in reqs:
+            if prev is not None and not any(a in prev for a in alts):
+                gained = True
+                res.nt(("gain", hist, label, pos))
+        if gained:
+            res.count("history_gain:" + hist)
     miss = kindx.missing(reqs, feats)
     if miss:
+        fresh = None
+        if hist is not None:
+            # diagnosis only (mechanism string): does a structural copy of the same problem, never evaluated before, report
+            # the feature?  Then the omission comes from state kept across evaluations, not from the feature analysis.
+            try:
+                fresh = set(pb.clone().kind.features)
+            except Exception:
+                fresh = None
         by_mech = {}
         for alts, label, family, pos in miss:
-            by_mech.setdefault(mechanism(pos, family), []).append({"needs_one_of": list(alts), "position": pos})
+            if fresh is not None and any(a in fresh for a in alts):
+                mech = f"stale-kind-after-mutation:{family}"  # class and mutation are in the witness ("history")
+            elif pc == "ma" and pos.startswith("ma:agent-fluent") and _only_from_name_sharing_fluents(pb, alts, pos):
+                mech = "missing:ma:agent-fluent-sharing-its-name-with-a-fluent-of-another-agent"
+            else:
+                mech = mechanism(pos, family)
+            by_mech.setdefault(mech, []).append({"needs_one_of": list(alts), "position": pos})
         d = describe()
         for mech, items in sorted(by_mech.items()):
             res.violation(
@@ -145,6 +214,8 @@ def specs_for(key):
 def run_case(key, tier, res):
     if key.startswith("C10g:"):
         return run_grammar_case(key, tier, res)
+    if key.startswith("C10h:"):
+        return run_history_case(key, tier, res)
     from unified_planning.environment import get_environment
     from unified_planning.exceptions import UPException
     from vk.gen import kindplant
@@ -186,6 +257,82 @@ def run_grammar_case(key, tier, res):
         return
     res.count("grammar_cases")
     judge(pb, {"case_key": key, "tier": tier}, res, lambda: {"recipe": rec, "problem": str(pb)[:3000]})
+
+
+def run_history_case(key, tier, res):
+    """evaluate, mutate, evaluate again: every evaluation is judged against the from-scratch oracle."""
+    from unified_planning.environment import get_environment
+    from unified_planning.exceptions import UPException
+    from vk.gen import kindplant
+    from vk.gen.problem import gen_problem
+    from vk.recipe import instantiate_problem
+
+    i = int(key.split(":")[2])
+    rng = rng_for(key)
+    src = HISTORY_SOURCES[i % len(HISTORY_SOURCES)]
+    pc = "prob" if src == "grammar" else src
+    same = [s for s in P.TABLE if s[0] == pc]
+    env = get_environment() if pc in ("htn", "sched") else _env.fresh_env()
+    steps = []
+    try:
+        if src == "grammar":
+            prof = dict(GRAMMAR_PROFILE, undefined_init=0.1, metric=rng.choice([None, "any"]))
+            rec, _ = gen_problem(rng, prof)
+            pb0, _ = instantiate_problem(rec, env)
+            b = kindplant.B(rng, env, pc, pb=pb0)
+        else:
+            b = kindplant.B(rng, env, pc)
+        b.rich_shadows = True
+        b.defer_second = rng.random() < 0.6
+        for _ in range(rng.choice([0, 1, 1, 2])):
+            try:
+                b.plant(rng.choice(same))
+            except kindplant.Skip:
+                res.count("plant_skipped")
+        if pc != "ma" and rng.random() < (0.3 if src == "grammar" else 0.7):
+            b.explicit_fluent()
+        pb = b.finish() if src != "grammar" else b.pb
+    except UPException as e:
+        res.count("rejected_at_build:" + type(e).__name__)
+        return
+    res.count("history_cases")
+    wbase = {"case_key": key, "tier": tier}
+    describe = lambda: {"source": src, "history": list(steps), "log": list(b.log), "problem": str(pb)[:3000]}
+    steps.append("build; kind")
+    prev = judge(pb, wbase, res, describe)
+    if prev is None:
+        return
+    menu = ["add-object"] * 4 + ["add-object-initialised"] + ["plant"] * 4 + ["set-initial-value"] * 2 + ["explicit-fluent"]
+    if pc == "ma":
+        menu = ["add-object"] * 2 + ["plant"] * 3 + ["shadow"] * 4 + ["add-agent"] * 4
+    for _ in range(rng.choice([1, 2, 2, 3])):
+        m = rng.choice(menu)
+        try:
+            if m.startswith("add-object"):
+                b.add_new_object(init_new=m.endswith("initialised"))
+            elif m == "plant":
+                b.plant(rng.choice(same))
+            elif m == "set-initial-value":
+                b.set_some_initial_value()
+            elif m == "explicit-fluent":
+                b.explicit_fluent()
+            elif m == "shadow":
+                sh = b.shadow_fluents(rich=True, k=1)
+                if not sh:
+                    raise kindplant.Skip("nothing to shadow")
+                b.log.append("same-named fluents: " + "; ".join(sh))
+            elif m == "add-agent":
+                b.add_second_agent()
+        except kindplant.Skip:
+            res.count("history_mutation_skipped:" + m)
+            continue
+        except UPException as e:
+            res.count("history_mutation_rejected:" + type(e).__name__)
+            return
+        steps.append(m + "; kind")
+        prev = judge(pb, wbase, res, describe, hist=m, prev=prev)
+        if prev is None:
+            return
 
 
 def corpus():
@@ -231,6 +378,17 @@ def thresholds(m):
         out.append(f"corpus not loaded completely ({c.get('corpus_problems', 0)} problems)")
     if c.get("grammar_cases", 0) < 50:
         out.append("fewer than 50 grammar problems judged")
+    if c.get("history_cases", 0) < 150:
+        out.append(f"fewer than 150 history cases ({c.get('history_cases', 0)})")
+    for mname, need in (("add-object", 40), ("add-object-initialised", 8), ("plant", 40), ("set-initial-value", 15), ("explicit-fluent", 8), ("shadow", 6), ("add-agent", 8)):
+        if c.get("history_mut:" + mname, 0) < need:
+            out.append(f"fewer than {need} re-evaluations after mutation {mname} ({c.get('history_mut:' + mname, 0)})")
+    for mname, need in (("add-object", 10), ("plant", 25)):
+        if c.get("history_gain:" + mname, 0) < need:
+            out.append(f"fewer than {need} re-evaluations after {mname} where the oracle demands a feature the previous kind lacked ({c.get('history_gain:' + mname, 0)})")
+    for pc in ("prob", "htn", "ma", "cont", "sched"):
+        if c.get("history_class:" + pc, 0) < 25:
+            out.append(f"fewer than 25 re-evaluations after a mutation for class {pc}")
     rej = sum(v for k, v in c.items() if k.startswith("rejected_"))
     if rej * 2 > max(1, m["evaluations"]):
         out.append("more than half of the cases were rejected")
@@ -243,4 +401,5 @@ def extra_coverage(m):
         "table_pairs": N_TABLE,
         "table_pairs_observed": sum(1 for s in P.TABLE if c.get("pair:%s@%s" % P.pair_of(s), 0) >= P.MIN_OBS),
         "dont_care_counts": {k: v for k, v in c.items() if k.startswith("dontcare:")},
+        "history": {k: v for k, v in sorted(c.items()) if k.startswith("history")},
     }
